@@ -41,7 +41,12 @@ using Entries = mp::mp_list<
     /*23*/ Entry<F_TIFF, gil::gray32_image_t>, /*24*/ Entry<F_TIFF, gil::gray32f_image_t>, /*25*/ Entry<F_TIFF, gil::rgb8_image_t>, /*26*/ Entry<F_TIFF, gil::rgb16_image_t>,
     /*27*/ Entry<F_TIFF, gil::rgb32f_image_t>, /*28*/ Entry<F_TIFF, gil::rgba8_image_t>, /*29*/ Entry<F_TIFF, gil::cmyk8_image_t>, /*30*/ Entry<F_TIFF, gil::rgb8_planar_image_t>,
     /*31*/ Entry<F_TIFF, gil::rgba16_image_t>, /*32*/ Entry<F_TIFF, gil::cmyk16_image_t>,
-    /*33*/ Entry<F_JPEG, gil::gray8_image_t>, /*34*/ Entry<F_JPEG, gil::rgb8_image_t>, /*35*/ Entry<F_JPEG, gil::cmyk8_image_t>>;
+    /*33*/ Entry<F_JPEG, gil::gray8_image_t>, /*34*/ Entry<F_JPEG, gil::rgb8_image_t>, /*35*/ Entry<F_JPEG, gil::cmyk8_image_t>,
+    // pixel types with another channel order or planar storage: supported by the same tables (colour space and channel type decide)
+    /*36*/ Entry<F_BMP, gil::bgr8_image_t>, /*37*/ Entry<F_BMP, gil::abgr8_image_t>, /*38*/ Entry<F_PNM, gil::bgr8_image_t>, /*39*/ Entry<F_TARGA, gil::bgr8_image_t>,
+    /*40*/ Entry<F_TARGA, gil::argb8_image_t>, /*41*/ Entry<F_PNG, gil::bgr8_image_t>, /*42*/ Entry<F_PNG, gil::abgr8_image_t>, /*43*/ Entry<F_PNG, gil::rgb8_planar_image_t>,
+    /*44*/ Entry<F_TIFF, gil::bgr8_image_t>, /*45*/ Entry<F_TIFF, gil::argb8_image_t>, /*46*/ Entry<F_BMP, gil::rgb8_planar_image_t>, /*47*/ Entry<F_TARGA, gil::rgba8_planar_image_t>,
+    /*48*/ Entry<F_PNM, gil::rgb8_planar_image_t>, /*49*/ Entry<F_TIFF, gil::bgra8_image_t>, /*50*/ Entry<F_PNG, gil::bgra8_image_t>, /*51*/ Entry<F_JPEG, gil::bgr8_image_t>>;
 constexpr int NE = static_cast<int>(mp::mp_size<Entries>::value);
 
 enum Org { O_WHOLE = 0, O_SUB, O_STEP, O_FLIP, O_TRANSPOSED, O_COUNT };
@@ -328,8 +333,8 @@ void verif_run(verif::Args const& a, verif::Evidence& ev)
     bool th = a.thorough();
     g_known_tiff_alpha = a.is_known("K12-tiff-alpha");
     g_tmpdir = a.outdir;
-    ev.rule = "rapidcheck cases = (entry from the group's share of 36 (format, pixel type) pairs taken from each format's write-support table: BMP rgb8/rgba8; PNM gray1/gray8/rgb8; TARGA rgb8/rgba8; PNG gray1/2/4/8/16, "
-              "gray_alpha8/16, rgb8/16, rgba8/16; TIFF gray1/2/4/8/16/32/32f, rgb8/16/32f, rgba8/16, cmyk8/16, planar rgb8; JPEG gray8/rgb8/cmyk8), w in 1..20 (70), h in 1..11 (36), TIFF tile-edge sizes, organisation "
+    ev.rule = "rapidcheck cases = (entry from the group's share of 52 (format, pixel type) pairs taken from each format's write-support table: BMP rgb8/rgba8; PNM gray1/gray8/rgb8; TARGA rgb8/rgba8; PNG gray1/2/4/8/16, "
+              "gray_alpha8/16, rgb8/16, rgba8/16; TIFF gray1/2/4/8/16/32/32f, rgb8/16/32f, rgba8/16, cmyk8/16, planar rgb8; JPEG gray8/rgb8/cmyk8; plus bgr8/abgr8/argb8/bgra8 and planar rgb8/rgba8 variants for every format that supports the colour space), w in 1..20 (70), h in 1..11 (36), TIFF tile-edge sizes, organisation "
               "{whole (aligned or not), sub-view, sub-sampled, flipped both ways, transposed}, contents {random, gradient, constant, checker}, destination and read-back device {file name, FILE*, std stream}, TIFF "
               "{none, LZW, deflate, packbits} x {strip, tiles 16/32}, optional cross-device byte comparison). oracle: read_image into the same type has the same dimensions and every channel of every pixel equals the source "
               "view's (JPEG: quality 100, frozen bounds). non-trivial: width not a multiple of 8 or non-contiguous source; distinct = (entry, shape, organisation, content kind, devices, options).";
